@@ -36,6 +36,10 @@ CHECKS = {
    text='Every verdict of omega.solve_matrix and Simplex on ~1000 systems per run (exhaustive tiny systems, random up to 5 variables / 8 rows / |coeff|<=4 with zero rows, duplicates, paired equalities) is validated: SAT by the verified witness checker, Omega UNSAT by replaying the returned Derivation through deriv_check (proved: accepted derivation => no integer solution), UNSAT also challenged by Z3-proposed models that are re-validated by the checker. Machine-checked (axiom-free): real-shadow soundness, gcd tightening, dark-shadow arithmetic core, deriv_check_sound, sat_ok_sound; combine_real/dark_factoid are compared with the model on random factoids. The search procedures themselves are not modelled.',
    note='Trusted: Coq kernel; serialisation of verdicts/derivations; simplex UNSAT answers rest on Z3 failing to find a model (no Farkas certificate is extracted); exceptions are not verdicts; HOL wrappers not covered in this build.',
    design='7/C16'),
+ 'C13': dict(category='proof', technique='Coq proof that renumbering preserves the dependency order + exact correspondence of the structural editing operations with a Gallina model judged by well_numbered + replay of recorded library proofs with invariants after every step',
+   text='Machine-checked (axiom-free): can_depend_on_incr (insertion renumbering is monotone on line identifiers, all depths) and the characterisation of the dependency rule. add_line_before / remove_line / set_line / replace_id are modelled in Gallina and compared exactly (ids, rules, citations, nesting) with ProofState on random well-numbered proofs; the results are judged by well_numbered. Every recorded step of the library proofs is replayed (first on a copy) and after every step: re-check with exactly the open gaps, last line = goal, contiguous numbering with earlier-visible citations, gap-free acceptance, export/parse_proof round trip, copy isolation. Partial: the individual methods are explored, not modelled.',
+   note='Trusted: Coq kernel; correspondence harness; the recorded proofs as the source of realistic edit sequences.',
+   design='7/C13'),
 }
 m = {
  'version': 1,
